@@ -1,6 +1,7 @@
 SPECIFICATION Spec
 CONSTANTS
   MaxWrites = 2
+  MaxFaults = 1
   MaxCrashes = 2
   ClassSel = "sched"
   Defects = {}
